@@ -33,7 +33,7 @@ def plan(tier):
 
 
 def required_counters(tier):
-    return ["writable_result_buffers", "results_mutated", "repeat_calls_compared", "view_inputs", "arrow_inputs", "groups_mutated", "shares_memory_checks", "collection_inputs"]
+    return ["writable_result_buffers", "results_mutated", "repeat_calls_compared", "view_inputs", "arrow_inputs", "groups_mutated", "shares_memory_checks", "collection_inputs", "result_names_mutated"]
 
 
 def features(case):
@@ -70,6 +70,10 @@ def _writable_arrays(res):
                 add(res[c].to_numpy(copy=False))
             except Exception:
                 pass
+        try:
+            add(np.asarray(res.index.to_numpy(copy=False)) if not isinstance(res.index, (pd.MultiIndex, pd.RangeIndex)) else None)
+        except Exception:
+            pass
     elif isinstance(res, dict):
         for v in res.values():
             add(v if isinstance(v, np.ndarray) else None)
@@ -200,6 +204,20 @@ def check(case, ctx):
             ctx.count("results_mutated")
             if op == "groups":
                 ctx.count("groups_mutated")
+        # ... and over its labelling: index / column names are settable in place on a returned pandas object
+        names1 = names_g0 = None
+        # (reductions only: their labels belong to the grouping.  A row-aligned result carries the caller's own index object, as
+        # every pandas operation does, so renaming it there is renaming the caller's index - not something the library did)
+        if isinstance(r1, (pd.Series, pd.DataFrame)) and op != "groups" and kind == "red":
+            names1 = [list(r1.index.names), list(r1.columns.names) if isinstance(r1, pd.DataFrame) else None]
+            names_g0 = list(gb.result_index.names)
+            try:
+                r1.index.names = [f"scribbled{i}" for i in range(r1.index.nlevels)]
+                if isinstance(r1, pd.DataFrame):
+                    r1.columns.names = [f"scribbled_col{i}" for i in range(r1.columns.nlevels)]
+                ctx.count("result_names_mutated")
+            except Exception:
+                names1 = None
         snap1 = cmp.snapshot(inputs)[0]
         if snap1 != snap0:
             fails.append({"monitor": "c19.alias", "sig": f"{op}|input_changed", "detail": f"{op}: overwriting the returned result changed an input buffer (containers keys={case.get('kc')}, values={case.get('vc')})"})
@@ -223,7 +241,13 @@ def check(case, ctx):
                 d = None if (n1.index, n1.vals) == (n2.index, n2.vals) or str((n1.index, n1.vals)) == str((n2.index, n2.vals)) else f"{op}: selection changed"
             if d:
                 fails.append({"monitor": "c19.repeat", "sig": op, "detail": d})
+            if names1 is not None and isinstance(r2, (pd.Series, pd.DataFrame)):
+                names2 = [list(r2.index.names), list(r2.columns.names) if isinstance(r2, pd.DataFrame) else None]
+                if names2 != names1:
+                    fails.append({"monitor": "c19.repeat", "sig": f"{op}|names", "detail": f"{op}: index/column names of the identical call are {names2} after the first result was renamed in place (first call: {names1})"})
         # ---- the grouping itself
+        if names_g0 is not None and list(gb.result_index.names) != names_g0:
+            fails.append({"monitor": "c19.grouping", "sig": f"{op}|names", "detail": f"{op}: renaming the returned result's index in place renamed the grouping's labels: {names_g0} -> {list(gb.result_index.names)}"})
         if cmp.labels_of(gb.result_index) != labels0 or cmp.col_py(gb.size()) != sizes0:
             fails.append({"monitor": "c19.grouping", "sig": op, "detail": f"{op}: labels or sizes of the grouping changed"})
         # a dependent operation after scribbling over groups (uses the same cached indexer)
